@@ -514,3 +514,28 @@ def _lemma_instances(lem, registry, seed=0, tries=400, want=5):
             if ok is False:
                 violated.append(dict(inputs=inp, clause=label))
     return dict(tried=tried, satisfied=satisfied, violated=violated[:3])
+
+
+def replay_lemma(name, inputs, registry=None):
+    """run one lemma instance natively (real functions): confirmed iff every `requires` holds and some `ensures` is false"""
+    from . import calls as _calls
+    registry = registry or contract.Registry()
+    lem = [l for l in registry.lemmas if l.name == name][0]
+    calls.NATIVE_MODE[0] = True
+    try:
+        eng = contract.spec_engine(lem.sidecar, lem.fd, 'lemma.' + lem.name, registry)
+        eng.spec_mode = False
+        eng.lemma_mode = True
+        eng.concrete = True
+        st = St()
+        try:
+            st.env = {p: lift(to_native(lem.param_kinds[p], inputs.get(p)), st) for p in lem.param_names}
+            outs = eng.run_body(lem.body, st)
+        except _calls.LemmaInstanceDiscarded:
+            return dict(confirmed=False, detail='the counter-model does not satisfy the lemma preconditions natively (floating point / abstraction)')
+        except Exception as ex:
+            return dict(confirmed=False, detail='lemma instance not executable natively: %s' % str(ex)[:200])
+        bad = [l for l, ok in eng.instance_results if ok is False]
+        return dict(confirmed=bool(bad), failed=bad, detail='')
+    finally:
+        calls.NATIVE_MODE[0] = False
